@@ -184,6 +184,16 @@ func init() {
 	addControl(Control{Prop: "C06", Name: "withdraw-denom-test-inverted", File: "x/liquidity/keeper/pool.go",
 		Find:    "\tif msg.PoolCoin.Denom != pool.PoolCoinDenom {",
 		Replace: "\tif msg.PoolCoin.Denom == pool.PoolCoinDenom {", Rule: "R06.5", Contains: "Withdraw"})
+	// ---- C19 (late rules) ----
+	addControl(Control{Prop: "C19", Name: "side-selection-by-base-field-correct", File: "x/liquidity/keeper/rewards.go",
+		Find:    "\t\tif pair.QuoteCoinDenom == asset.Denom {\n\t\t\tassetAmount = quoteCoin.Amount\n\t\t} else {\n\t\t\tassetAmount = baseCoin.Amount\n\t\t}\n\t\tvalue, _ := k.CalcAssetPrice(ctx, asset.Id, assetAmount)\n\t\tvalue = value.Mul(sdkmath.LegacyNewDec(2)) // multiplying the calculated value of sigle asset with 2, since we have 50-50 pools.\n\t\tlpAddresses",
+		Replace: "\t\tif pair.BaseCoinDenom != asset.Denom {\n\t\t\tassetAmount = quoteCoin.Amount\n\t\t} else {\n\t\t\tassetAmount = baseCoin.Amount\n\t\t}\n\t\tvalue, _ := k.CalcAssetPrice(ctx, asset.Id, assetAmount)\n\t\tvalue = value.Mul(sdkmath.LegacyNewDec(2)) // multiplying the calculated value of sigle asset with 2, since we have 50-50 pools.\n\t\tlpAddresses", Negative: true})
+	addControl(Control{Prop: "C19", Name: "split-extra-unit-by-i-lt-r", File: "x/rewards/keeper/utils.go",
+		Find:    "\t\tzp := totalEpochs - (totalAmount % totalEpochs)\n\t\tpp := totalAmount / totalEpochs\n\t\tfor i := uint64(0); i < totalEpochs; i++ {\n\t\t\tif i >= zp {",
+		Replace: "\t\tzp := totalAmount % totalEpochs\n\t\tpp := totalAmount / totalEpochs\n\t\tfor i := uint64(0); i < totalEpochs; i++ {\n\t\t\tif i < zp {", Negative: true})
+	addControl(Control{Prop: "C19", Name: "split-extra-unit-i-lte-r", File: "x/rewards/keeper/utils.go",
+		Find:    "\t\tzp := totalEpochs - (totalAmount % totalEpochs)\n\t\tpp := totalAmount / totalEpochs\n\t\tfor i := uint64(0); i < totalEpochs; i++ {\n\t\t\tif i >= zp {",
+		Replace: "\t\tzp := totalAmount % totalEpochs\n\t\tpp := totalAmount / totalEpochs\n\t\tfor i := uint64(0); i < totalEpochs; i++ {\n\t\t\tif i <= zp {", Rule: "R19.8", Contains: "SplitTotalAmountPerEpoch"})
 	// ---- C10 ----
 	addControl(Control{Prop: "C10", Name: "v2-elapsed-via-local", File: "x/auctionsV2/keeper/auctions.go",
 		Find:    "\ttimeElapsed := ctx.BlockTime().Sub(dutchAuction.StartTime)",
